@@ -148,6 +148,18 @@ type plan struct {
 	ambiguous  bool // a taken link had both a relative and a layouts/ candidate (different files)
 	fellBack   bool // a taken link from outside layouts/ fell back to layouts/
 	explicit   bool // a taken link used an explicit *.vuego path
+	// pageReused: a layout names the page file itself and the page has no layout key. The
+	// default layout is due for the first template only, so the chain ends there with the page
+	// file as outermost layout; it has no content holder, hence the document is the page alone.
+	pageReused bool
+}
+
+// doc returns the files whose markers make up the expected document, innermost first.
+func (pl plan) doc() []File {
+	if pl.pageReused {
+		return pl.chain[:1]
+	}
+	return pl.chain
 }
 
 func walk(c Case) plan {
@@ -200,6 +212,11 @@ func walk(c Case) plan {
 			pl.out = oMissing
 			return pl
 		}
+		if next == c.Page.Path && c.Page.Layout == "" {
+			pl.pageReused = true
+			pl.chain = append(pl.chain, c.Page)
+			return pl
+		}
 		if at, dup := seen[next]; dup {
 			pl.out = oCycle
 			pl.cycleLen = len(pl.chain) - at
@@ -225,12 +242,15 @@ func walk(c Case) plan {
 //   - whether the front-matter of an earlier layout stays visible in later layouts is not
 //     stated (the anchors speak of "accumulated data"): such values are tolerated as well;
 //   - k defined nowhere visible: what an undefined variable renders as is not documented.
-func allowedK(c Case, chain []File, i int) []string {
+func allowedK(c Case, chain []File, i int, pageReused bool) []string {
 	f := chain[i]
 	if f.K != "" {
 		return []string{f.K}
 	}
 	if i == 0 {
+		if pageReused {
+			return nil // the page file acting as last layout: earlier layouts' k may or may not be visible
+		}
 		if c.FillK != "" {
 			return []string{c.FillK}
 		}
@@ -362,12 +382,12 @@ func check(c Case) error {
 			return fmt.Errorf("chain ends after %d layouts (%s): want success, got error %v", layouts, pl.describe(), res.err)
 		}
 	}
-	return verify(c, pl.chain, res.out)
+	return verify(c, pl.doc(), pl.pageReused, res.out)
 }
 
 // verify checks that out is exactly one document: chain[last](…chain[1](chain[0])…), with the
 // expected values visible at every level.
-func verify(c Case, chain []File, out []byte) error {
+func verify(c Case, chain []File, pageReused bool, out []byte) error {
 	forest, err := hx.Frag(string(out), hx.Collapse)
 	if err != nil {
 		return fmt.Errorf("output does not parse: %v", err)
@@ -423,7 +443,7 @@ func verify(c Case, chain []File, out []byte) error {
 		if cells["fd"] != fdVal {
 			return fail("in %s the Fill key fd shows %q, want %q (page data must stay visible)", f.Path, cells["fd"], fdVal)
 		}
-		if allowed := allowedK(c, chain, i); allowed != nil {
+		if allowed := allowedK(c, chain, i, pageReused); allowed != nil {
 			ok := false
 			for _, a := range allowed {
 				ok = ok || cells["k"] == a
@@ -490,10 +510,15 @@ func classify(c Case) (bool, []string) {
 		default:
 			cls = append(cls, "outcome=ends")
 		}
-		if layouts <= 5 {
+		switch {
+		case layouts <= 5 || (layouts >= 99 && layouts <= 101):
 			cls = append(cls, fmt.Sprintf("layouts=%d", layouts))
-		} else {
-			cls = append(cls, fmt.Sprintf("layouts=%d(long)", layouts))
+		case layouts <= safeMax:
+			cls = append(cls, fmt.Sprintf("layouts=6..%d", safeMax))
+		case layouts <= limitMax:
+			cls = append(cls, fmt.Sprintf("layouts=%d..%d", safeMax+1, limitMax))
+		default:
+			cls = append(cls, fmt.Sprintf("layouts>%d", limitMax))
 		}
 	case oCycle:
 		cls = append(cls, "outcome=cycle")
@@ -536,6 +561,9 @@ func classify(c Case) (bool, []string) {
 	}
 	if pl.explicit {
 		cls = append(cls, "link:explicit-path")
+	}
+	if pl.pageReused {
+		cls = append(cls, "page-file-reused-as-last-layout")
 	}
 	// collisions on k among the files actually on the chain
 	layK := 0
@@ -636,6 +664,75 @@ func applyKMask(c *Case, m int) {
 			c.Files[j].K = kValue(c.Files[j].Path)
 		}
 	}
+}
+
+// shapeCase builds, by construction, a chain of exactly L layouts n1..nL with a chosen ending.
+// dirs bit i-1 places n_i in pages/ (1) or layouts/ (0); decoys bit i-1 adds a same-named file in
+// the other directory wherever that does not change which file the link must resolve to (next to
+// the naming file it would shadow layouts/, so it is only added when the target is the nearer one);
+// viaDefault makes n1 = layouts/base.vuego reached through the default rule (page names nothing).
+// end: -3 chain ends, -2 last names a missing file, j>=0 last names chain[j] again (0 = the page).
+func shapeCase(L, dirs, decoys int, viaDefault bool, end int) Case {
+	c := Case{Page: File{Path: "pages/p.vuego"}}
+	dirOf := func(i int) string { // i = 0 is the page
+		if i == 0 || dirs&(1<<(i-1)) != 0 {
+			if i == 1 && viaDefault {
+				return "layouts"
+			}
+			return "pages"
+		}
+		return "layouts"
+	}
+	nameOf := func(i int) string {
+		if i == 0 {
+			return "p"
+		}
+		if i == 1 && viaDefault {
+			return "base"
+		}
+		return fmt.Sprintf("n%d", i)
+	}
+	// how file `from` spells file `to`
+	spell := func(from, to int) string {
+		if dirOf(from) == dirOf(to) || dirOf(to) == "layouts" {
+			return nameOf(to) // same directory, or the layouts/ fallback
+		}
+		return "../" + dirOf(to) + "/" + nameOf(to) + ".vuego"
+	}
+	chain := make([]File, L+1)
+	chain[0] = c.Page
+	for i := 1; i <= L; i++ {
+		chain[i] = File{Path: dirOf(i) + "/" + nameOf(i) + ".vuego"}
+		if !(i == 1 && viaDefault) {
+			chain[i-1].Layout = spell(i-1, i)
+		}
+	}
+	switch {
+	case end == -2:
+		chain[L].Layout = "zz"
+	case end >= 0:
+		chain[L].Layout = spell(L, end)
+	}
+	c.Page = chain[0]
+	c.Files = append(c.Files, chain[1:]...)
+	for i := 1; i <= L; i++ {
+		if decoys&(1<<(i-1)) == 0 || (i == 1 && viaDefault) {
+			continue
+		}
+		other := "pages"
+		if dirOf(i) == "pages" {
+			other = "layouts"
+		}
+		// a decoy next to the naming file would (rightly) win: only add it where it must lose
+		if other == dirOf(i-1) && other != "layouts" {
+			continue
+		}
+		if other == "layouts" && dirOf(i-1) == "layouts" {
+			continue
+		}
+		c.Files = append(c.Files, File{Path: other + "/" + nameOf(i) + ".vuego", Layout: "zz", K: "k-decoy"})
+	}
+	return c
 }
 
 var rapidDirs = []string{"layouts", "pages"}
@@ -784,7 +881,11 @@ func TestProp(t *testing.T) {
 	slots3 := []string{"layouts/a.vuego", "pages/a.vuego", basePath}
 	n2 := 0
 	enumGraphs(slots3, []string{"", "a", "base"}, []string{"", "a", "base"}, func(i int, c Case) bool {
-		for m := 0; m < 4<<len(c.Files); m++ {
+		masks := 4 << len(c.Files)
+		if walk(c).out != oOK {
+			masks = 1 // no document is expected: the k sources cannot matter
+		}
+		for m := 0; m < masks; m++ {
 			for _, via := range []string{"", "renderfile"} {
 				d := c
 				d.Files = append([]File(nil), c.Files...)
@@ -829,7 +930,43 @@ func TestProp(t *testing.T) {
 	}
 	rec.Exhaustive(fmt.Sprintf("synthetic chains of 6..150 layouts (%d cases)", i3))
 
-	// (4) random graphs over up to 6 files with spellings, collisions and long tails
+	// (4) chain shapes by construction: every length 0..5 x every placement of the links in
+	// layouts/ or next to the page x every ending (ends, missing, back to each earlier file
+	// including itself and the page) x named / default-applied first link; decoy files, an idle
+	// layouts/base.vuego, k sources and the entry point rotate with the index.
+	i4 := 0
+	for L := 0; L <= 5; L++ {
+		for dirs := 0; dirs < 1<<L; dirs++ {
+			for end := -3; end <= L; end++ {
+				for _, viaDefault := range []bool{false, true} {
+					if viaDefault && (L == 0 || dirs&1 != 0) {
+						continue
+					}
+					if end >= 0 && L == 0 {
+						continue // the page naming itself is covered with L=0? no: needs a named link
+					}
+					c := shapeCase(L, dirs, (i4*5+3)%(1<<L), viaDefault, end)
+					if !viaDefault && L > 0 && i4%3 == 0 {
+						c.Files = append(c.Files, File{Path: basePath, Layout: "zz"}) // present but not due
+					}
+					applyKMask(&c, (i4*7+i4/5)%(4<<min(len(c.Files), L)))
+					if i4%2 == 1 {
+						c.Via = "renderfile"
+					}
+					each("shape")(i4, c)
+					i4++
+				}
+			}
+		}
+	}
+	// the page naming itself
+	for _, via := range []string{"", "renderfile"} {
+		each("shape")(i4, Case{Page: File{Path: "pages/p.vuego", Layout: "p"}, Via: via})
+		i4++
+	}
+	rec.Exhaustive(fmt.Sprintf("chain shapes: lengths 0..5 x placements x endings x default/named (%d cases)", i4))
+
+	// (5) random graphs over up to 6 files with spellings, collisions and long tails
 	run.Rapid(t, rec, "random", genCase, classify, check)
 }
 
